@@ -21,7 +21,43 @@ def fix(cfg):
     objs = []
     for (name, idx, flags, size), v in zip(OBJ, cfg["v"]):
         objs.append([idx, 0, flags, {1: 0, 2: 1, 4: 2}[size]] + list(v))
-    return dict(tpdo=tp, rpdo=rp, sync=[sid | (0x40000000 if gen else 0), cyc], objs=objs, hb=hb, hc=[], mapslots=4)
+    return dict(tpdo=tp, rpdo=rp, sync=[sid | (0x40000000 if gen else 0), cyc], objs=objs, hb=hb, hc=[], mapslots=4,
+                rshift=cfg.get("rshift", 0), tshift=cfg.get("tshift", 0))
+
+
+def shifted(behs, rshift, tshift):
+    """the same behaviours with the PDOs in higher slots: SDO frames / responses naming 14xxh/16xxh (18xxh/1Axxh) get their index
+    raised by rshift (tshift), application triggers name the shifted TPDO; everything else (identifiers, data, timing) is unchanged"""
+    import copy
+    from vlib import Beh
+
+    def fix_bytes(lst, pos):
+        if len(lst) > pos + 1 and isinstance(lst[pos], int) and isinstance(lst[pos + 1], int):
+            if lst[pos + 1] in (0x14, 0x16):
+                lst[pos] += rshift
+            elif lst[pos + 1] in (0x18, 0x1A):
+                lst[pos] += tshift
+    out = []
+    for b in behs:
+        steps = copy.deepcopy(b.steps)
+        for st in steps:
+            e = st["e"]
+            if e[0] == "rx" and len(e) >= 7 and 0x600 < e[1] < 0x680:
+                fix_bytes(e, 4)
+            elif e[0] == "tpdo_trig":
+                e[1] += tshift
+            for it in st["x"]:
+                if it and it[0] == "tx" and len(it) >= 7 and 0x580 < it[1] < 0x600:
+                    fix_bytes(it, 4)
+        out.append(Beh(dict(b.cfg, rshift=rshift, tshift=tshift), steps, b.nprefix, "shift"))
+    return out
+
+
+# builds with unequal numbers of PDOs; the PDOs under test sit in the highest slots of the larger side
+UNEQUAL = {"r4t2": ("CO_RPDO_N=4", "CO_TPDO_N=2"), "r2t4": ("CO_RPDO_N=2", "CO_TPDO_N=4")}
+# configuration -> (NT, NR, event timers in use); the first event period depends on the slot number (TpdoInitialStagger), so
+# configurations with event timers are not replayed with shifted TPDOs
+SHAPE = {"C13": (1, 3, False), "C14T": (1, 1, False), "C14R": (1, 1, False), "C16": (1, 1, False)}
 
 def observe(it):
     if it[0] == "tx":
@@ -32,7 +68,7 @@ def observe(it):
         return 0x2100 <= it[1] <= 0x21FF
     return it[0] in ("ok", "err", "ret", "acts")
 
-def run(ctx, pids, quick_edges=14000, walks=(60, 2500), genq=True):
+def run(ctx, pids, quick_edges=14000, walks=(60, 2500), genq=True, secondary=6000, shift_n=2500):
     q = ctx.tier == "quick"
     pre = node_common.make_preamble(fix)
     for pid in pids:
@@ -42,8 +78,15 @@ def run(ctx, pids, quick_edges=14000, walks=(60, 2500), genq=True):
         cfgname = cfgq if (q and os.path.exists(os.path.join(vlib.SPEC, cfgq))) else "%s_gen.cfg" % pid
         behs = ctx.gen_edges("MCPdo", cfgname, timeout=3000)
         if q:
-            behs = common.thin(behs, quick_edges if pid == pids[0] else min(quick_edges, 6000), ctx.seed)
+            behs = common.thin(behs, quick_edges if pid == pids[0] else min(quick_edges, secondary), ctx.seed)
         ctx.replay(behs, pre, observe, ordered=node_check.tick_unordered, label="edges_" + pid)
+        if pid in SHAPE:
+            nt, nr, _ = SHAPE[pid]
+            sub = common.thin(behs, shift_n if q else 40000, ctx.seed + 1)
+            if nt <= 2:
+                ctx.replay(shifted(sub, 4 - nr, 0), pre, observe, variant="r4t2", defines=UNEQUAL["r4t2"], ordered=node_check.tick_unordered, label="edges_%s_r4t2" % pid)
+            if nr <= 2:
+                ctx.replay(shifted(sub, 0, 4 - nt), pre, observe, variant="r2t4", defines=UNEQUAL["r2t4"], ordered=node_check.tick_unordered, label="edges_%s_r2t4" % pid)
         w = ctx.gen_walks("MCPdo", "%s_walk.cfg" % pid, num=walks[0] if q else walks[1], depth=45, timeout=2500)
         ctx.replay(w, pre, observe, ordered=node_check.tick_unordered, label="walks_" + pid)
         node_check.node_id_variant(ctx, "MCPdo", pid, pre, observe, node_check.tick_unordered, walks, 45, 3000)
